@@ -74,7 +74,9 @@ def ticket_generator(initial: int = 1) -> Generator[int, None, None]:
 async def cancel_task(task: Optional[asyncio.Task]):
     if task:
         task.cancel()
-        try:
-            await task
-        except asyncio.CancelledError:
-            pass
+        # Unlike awaiting the task itself, asyncio.wait does not raise the
+        # CancelledError of the cancelled task: a CancelledError raised here
+        # is meant for the calling task and must not be swallowed
+        await asyncio.wait([task])
+        if not task.cancelled():
+            task.result()
